@@ -273,7 +273,7 @@ func regexCharsets(pat string) (*genCharset, *genCharset, bool) {
 func idlFieldClasses(m *idlModel) map[string]*genDyn {
 	out := map[string]*genDyn{}
 	T := m.T
-	for _, f := range m.p.FuncsOf(pkgIDL) {
+	for _, f := range m.funcs() {
 		for _, b := range f.Blocks {
 			for _, in := range b.Instrs {
 				st, ok := in.(*ssa.Store)
